@@ -210,6 +210,18 @@ theorem hashPrefixes_wellformed :
     (Gen.C23.hashPrefixes.map (·.1)).Nodup := by
   decide
 
+/-! ### not proved here (kept as statements; exercised by T2/T3 only)
+-- FULL: pss_verify_encode : (∀ x, (h.hash x).length = h.outSize) → 0 < h.outSize →
+--         emsaPSSEncode h mHash emBits salt = .ok em →
+--         emsaPSSVerify h mHash em emBits salt.length = .ok () ∧ emsaPSSVerify h mHash em emBits 0 = .ok () ∧
+--         (salt.length = h.outSize → emsaPSSVerify h mHash em emBits (-1) = .ok ())
+--   (the harness checks exactly this on the real code for every `pssenc` case, and the model agrees with the
+--    code on every `pssenc`/`pssver` line; the Lean proof — list surgery + a UInt8 mask lemma — is missing.)
+-- FULL: oaep_decrypt_encrypt : KeyOk k → encryptOAEP h k.pub seed msg label = .ok c → decryptOAEP h h k c label = .ok msg
+-- FULL: pkcs1_sign_verify : KeyOk k → 2 ≤ k.e → signPKCS1v15 k h dg = .ok sig → verifyPKCS1v15 k.pub h dg sig = .ok ()
+--   (follows from encrypt_decrypt + natToBytesBE_os2ip; not written out.)
+-/
+
 /-! ### the hypotheses are satisfiable -/
 
 /-- p = 11, q = 13, e = 7, d = 103 with the values `Precompute` derives -/
